@@ -150,7 +150,7 @@ def to_wire(n):
         return [Atom('Import'), [[a.name, N if a.asname is None else a.asname] for a in n.names]]
     if t is ast.ImportFrom:
         return [Atom('ImportFrom'), N if n.module is None else n.module,
-                [[a.name, N if a.asname is None else a.asname] for a in n.names], n.level or 0]
+                [[a.name, N if a.asname is None else a.asname] for a in n.names], Atom(str(n.level or 0))]
     if t is ast.If:
         return [Atom('If'), to_wire(n.test), body_wire(n.body), body_wire(n.orelse)]
     if t is ast.While:
